@@ -14,14 +14,21 @@ type WalkProperty struct {
 type WalkCallback func(schema WalkProperty) error
 
 func WalkSchemaFields(root RootSchema, asClient bool, callback WalkCallback) error {
-	err := walkSchemaFields(root, asClient, callback, nil)
+	err := walkSchemaFields(root, asClient, callback, nil, nil)
 	if err != nil {
 		return err
 	}
 	return nil
 }
 
-func walkSchemaFields(root RootSchema, asClient bool, callback WalkCallback, path []string) error {
+func walkSchemaFields(root RootSchema, asClient bool, callback WalkCallback, path []string, ancestors []RootSchema) error {
+	for _, ancestor := range ancestors {
+		if ancestor == root {
+			// recursive schema, the fields were already visited at the outer level
+			return nil
+		}
+	}
+	ancestors = append(ancestors, root)
 
 	var properties PropertySet
 	switch rt := root.(type) {
@@ -50,11 +57,11 @@ func walkSchemaFields(root RootSchema, asClient bool, callback WalkCallback, pat
 
 		switch st := prop.Schema.(type) {
 		case *ObjectField:
-			if err := walkSchemaFields(st.Ref.To, asClient, callback, propPath); err != nil {
+			if err := walkSchemaFields(st.Ref.To, asClient, callback, propPath, ancestors); err != nil {
 				return err // not wrapped, the path is already in the error above
 			}
 		case *OneofField:
-			if err := walkSchemaFields(st.Ref.To, asClient, callback, propPath); err != nil {
+			if err := walkSchemaFields(st.Ref.To, asClient, callback, propPath, ancestors); err != nil {
 				return err // not wrapped, the path is already in the error above
 			}
 		}
